@@ -1,5 +1,6 @@
 import JadeModel.Props.C08
 import JadeModel.Proofs.ResultsFaultOnce
+import JadeModel.Proofs.ResultsFaultBytes
 
 /-!
 # C08 under injected I/O errors and kills (the part of C11 that concerns result files)
@@ -164,6 +165,36 @@ theorem C08_faultfree_is_base_bytes (ops : List (Op Row)) (created : Bool) :
   have := runX_base byteOpsX (initX byteOpsX created) ops rfl (fun _ => rfl)
   simp only [reachBytesX, this]
   rfl
+
+/-! ## Byte level under faults (consolidated file created at the start: the normal flow) -/
+
+/-- For every history with injected errors, kills and broken markers over legal rows, starting with the
+    consolidated file created, the bytes of every file are `renderFile` of the rows the row-level model
+    holds for it: what the driver executes (`byteOpsX`) is what the theorems above speak about.
+    (Without the consolidated file a failed write / a death after the append-open leaves a 0-byte file,
+    which has no row-level counterpart: that case is tied by the correspondence suite only.) -/
+theorem C08_bytes_refine_under_faults (ops : List (OpX Row)) (hops : ∀ op ∈ ops, op.Legal) :
+    reachBytesX ops true = renderX (reachX ops true) := by
+  have := (render_runX (initX (absOpsX Row) true) bytesOk_initX ops hops).1
+  rwa [render_initX] at this
+
+/-- … so the consolidated file and every node file parse at every instant, to exactly those rows, whatever
+    failed or died. -/
+theorem C08_files_parse_under_faults (ops : List (OpX Row)) (hops : ∀ op ∈ ops, op.Legal) :
+    (∃ rows : List Row, (reachX ops true).base.cons = some rows ∧
+      (reachBytesX ops true).base.cons = some (renderFile rows) ∧ parseFile (renderFile rows) = .ok rows) ∧
+    ∀ b : BatchId, (reachBytesX ops true).base.node b = ((reachX ops true).base.node b).map renderFile ∧
+      ∀ f, (reachX ops true).base.node b = some f → parseFile (renderFile f) = .ok f := by
+  rw [C08_bytes_refine_under_faults ops hops]
+  obtain ⟨hb, hr⟩ := all_runX (initX (absOpsX Row) true) (safe_init true) bytesOk_initX (rowsLegal_init true) ops hops
+  refine ⟨?_, fun b => ⟨rfl, fun f hf => parse_render f (hb.legal b f hf)⟩⟩
+  obtain ⟨rows, hrows⟩ := Option.isSome_iff_exists.1 hb.cons
+  refine ⟨rows, hrows, ?_, ?_⟩
+  · show ((reachX ops true).base.cons).map renderFile = _
+    rw [hrows]; rfl
+  · apply parse_render
+    intro r hr'
+    exact hr.cons r (by simpa [consRows, hrows] using hr')
 
 /-! ## Non-vacuity: concrete faulty histories (rows are numbers) -/
 
